@@ -445,6 +445,59 @@ def nat_cast_on_error(h):
             shutil.rmtree(d, ignore_errors=True)
 
 
+def nat_datapackage_sources(h):
+    """bounded: load of a data PACKAGE on disk.  (1) selection: whatever the selector (a later resource by name, by index, a list, a
+    regex) and the cast strategy, what is loaded is exactly the selected part of what loading everything gives -- rows, types and
+    descriptors; (2) history: the same Flow object run again after the package was re-published at the same place (one more column,
+    one more resource) gives what a fresh flow gives then"""
+    import os, tempfile, shutil, decimal
+    from dataflows import Flow, load, dump_to_path, update_resource
+
+    def publish(target, tables):
+        steps = []
+        for name, rows in tables:
+            steps += [[dict(r) for r in rows], update_resource(-1, name=name, path=name + '.csv')]
+        Flow(*steps, dump_to_path(target)).process()
+    orders = [dict(id='%03d' % i, qty=i, note=None if i % 2 else 'n%d' % i) for i in range(1, 6)]
+    people = [dict(id=i, name='p%d' % i, score=decimal.Decimal('1.5') * i) for i in range(4)]
+    places = [dict(code='c%d' % i, lat=i * 1.25) for i in range(3)]
+    d = tempfile.mkdtemp(prefix='c13p_')
+    try:
+        pkg = os.path.join(d, 'pkg')
+        publish(pkg, [('people', people), ('orders', orders), ('places', places)])
+        src = os.path.join(pkg, 'datapackage.json')
+        for cast in (load.CAST_WITH_SCHEMA, load.CAST_TO_STRINGS, load.CAST_DO_NOTHING):
+            everything = h.run(lambda: Flow(load(src, cast_strategy=cast)).results())
+            if not h.check(everything[0] == 'ok', P + 'load.py::load.process_resources', ('all', cast), 'loads', everything[:2]):
+                continue
+            rows_all, dp_all, _ = everything[1]
+            names = [r['name'] for r in dp_all.descriptor['resources']]
+            for sel, idx in (('orders', [1]), (1, [1]), (-1, [2]), (['orders', 'places'], [1, 2]), ('p.+', [0, 2]), (['places'], [2]),
+                             ('places', [2]), (0, [0])):
+                got = h.run(lambda: Flow(load(src, resources=sel, cast_strategy=cast)).results())
+                ok = got[0] == 'ok' and got[1][0] == [rows_all[i] for i in idx] and \
+                    [(r['name'], r['schema']) for r in got[1][1].descriptor['resources']] == \
+                    [(dp_all.descriptor['resources'][i]['name'], dp_all.descriptor['resources'][i]['schema']) for i in idx]
+                h.check(ok, P + 'load.py::load.process_resources', ('selection', repr(sel), cast), [rows_all[i] for i in idx],
+                        got[1][0] if got[0] == 'ok' else got[:2])
+        # history: re-published between two runs of the same Flow object
+        for cast in (load.CAST_WITH_SCHEMA, load.CAST_DO_NOTHING):
+            pkg2 = os.path.join(d, 'pkg2_' + cast)
+            publish(pkg2, [('people', people[:2])])
+            f = Flow(load(os.path.join(pkg2, 'datapackage.json'), cast_strategy=cast))
+            first = h.run(lambda: f.results())
+            shutil.rmtree(pkg2)
+            publish(pkg2, [('people', [dict(r, country='x%d' % i) for i, r in enumerate(people)]), ('places', places)])
+            again = h.run(lambda: f.results())
+            fresh = h.run(lambda: Flow(load(os.path.join(pkg2, 'datapackage.json'), cast_strategy=cast)).results())
+            ok = first[0] == 'ok' and fresh[0] == 'ok' and again[0] == 'ok' and again[1][0] == fresh[1][0] and \
+                again[1][1].descriptor == fresh[1][1].descriptor
+            h.check(ok, P + 'load.py::load.safe_process_datapackage', ('re-published between two runs of one Flow object', cast),
+                    fresh[1][0] if fresh[0] == 'ok' else fresh[:2], again[1][0] if again[0] == 'ok' else again[:2])
+    finally:
+        shutil.rmtree(d, ignore_errors=True)
+
+
 def nat_limits_and_handlers(h):
     """bounded: a delimited file LONGER than the parser's inference sample (1000 lines) with cells beyond the sample that do not cast;
     every way of asking for casting (cast_strategy, its older spellings validate= / force_strings=) x error policy x limit_rows:
@@ -506,7 +559,7 @@ ITEMS = [
     Item('ResourceMatcher', K10.ITEMS[0].symbolic, [], 'dataflows/helpers/resource_matcher.py::ResourceMatcher.match'),
     Item('schema_validator', K14.sym_schema_validator, [], 'dataflows/base/schema_validator.py::schema_validator'),
     Item('headers', sym_rename_duplicate_headers, [('de-duplication', nat_headers), ('collision', nat_headers_finding)], P + 'load.py::load.rename_duplicate_headers'),
-    Item('csv', None, [('fidelity', nat_csv), ('cast-on-error', nat_cast_on_error), ('limits-and-handlers', nat_limits_and_handlers),
+    Item('csv', None, [('fidelity', nat_csv), ('cast-on-error', nat_cast_on_error), ('limits-and-handlers', nat_limits_and_handlers), ('datapackage-sources', nat_datapackage_sources),
                        ('empty-cells-through-results', nat_empty_cells_through_results)], P + 'load.py::load'),
     Item('recorded-findings', None, [('bounded', KF.nat_findings_c13)], 'dataflows/processors/load.py::load.safe_process_datapackage'),
     # results() is where the loaded rows are observed: it casts every row of every resource with the final schema
